@@ -45,6 +45,21 @@ def var(n: str) -> Dict[str, Any]:
     return {"k": "var", "n": n}
 
 
+def strdoc(off: int = 0) -> Dict[str, Any]:
+    """a bare string statement, rendered as the attribute docstring (site marker) of the var `off`+1 statements before it"""
+    return {"k": "str", "off": off}
+
+
+def ivar(n: str) -> Dict[str, Any]:
+    """def __init__(self): self.<n> = ...   (instance variable of the enclosing class)"""
+    return {"k": "ivar", "n": n}
+
+
+def cvar(n: str) -> Dict[str, Any]:
+    """class-level annotation '<n>: int' (class variable without value; not bound at run time)"""
+    return {"k": "var", "n": n, "ann": True}
+
+
 def alias(n: str, v: str) -> Dict[str, Any]:
     return {"k": "alias", "n": n, "v": v.split(".")}
 
@@ -104,8 +119,19 @@ def render_module(p: Dict[str, Any], i: int) -> str:
             lines.append(f"{sp}def {op['n']}(*args):")
             lines.append(f"{sp}    '''site:{i + 1}:{pc}'''")
         elif k == "var":
-            lines.append(f"{sp}{op['n']} = {i + 1}000 + {pc}")
-            lines.append(f"{sp}'''site:{i + 1}:{pc}'''")
+            if op.get("ann"):
+                lines.append(f"{sp}{op['n']}: int")
+            else:
+                lines.append(f"{sp}{op['n']} = {i + 1}000 + {pc}")
+            if not op.get("nodoc"):
+                lines.append(f"{sp}'''site:{i + 1}:{pc}'''")
+        elif k == "str":
+            lines.append(f"{sp}'''site:{i + 1}:{pc - 1 - op.get('off', 0)}'''")
+        elif k == "ivar":
+            lines.append(f"{sp}def __init__(self):")
+            lines.append(f"{sp}    '''site:{i + 1}:{pc}'''")
+            lines.append(f"{sp}    self.{op['n']} = {i + 1}000 + {pc}")
+            lines.append(f"{sp}    '''site:{i + 1}:{-pc}'''")
         elif k == "alias":
             lines.append(f"{sp}{op['n']} = {'.'.join(op['v'])}")
         else:
